@@ -93,7 +93,15 @@ class DocGen:
                     if fn:
                         items.append(["spread", fn])
                         self.features.add("spread-variant")
-                        if rng.random() < 0.35:
+                        r2 = rng.random()
+                        if r2 > 0.75 and depth < self.max_depth:
+                            # ... or an inline fragment on the same member whose body is nothing but ANOTHER spread (disjoint keys):
+                            # `... on M { ...A } ...B` - two fragments reach the member, one of them wrapped
+                            fn2 = self.fragment(m, depth + 1, forbid=set(used) | self.frag_keys(fn))
+                            if fn2 and fn2 != fn and not (self.frag_keys(fn2) & self.frag_keys(fn)):
+                                items.append(["inline", m, [["spread", fn2]]])
+                                self.features.add("spread-and-inline-wrapping-a-spread")
+                        if r2 < 0.35:
                             # the same member also gets an inline fragment (disjoint keys), before or after the spread
                             taken = set(used) | self.frag_keys(fn)
                             sub = self.selection(m, depth + 1, used=set(taken))
